@@ -2,6 +2,8 @@
 
 package oned
 
+import "github.com/makiuchi-d/gozxing"
+
 // Read-only views of unexported data for the verification harness in /verif.
 // Compiled only with -tags verif; no behaviour change.
 
@@ -36,4 +38,27 @@ func VerifPatternTables() map[string][][]int {
 // VerifUPCENumSysAndCheckDigitPatterns returns a copy of the UPC-E parity table.
 func VerifUPCENumSysAndCheckDigitPatterns() [][]int {
 	return verifCopy2(upce_NUMSYS_AND_CHECK_DIGIT_PATTERNS)
+}
+
+// VerifBestMatchLimits returns, per best-match decoder, the maximum average and
+// maximum individual variance it accepts.
+func VerifBestMatchLimits() map[string][2]float64 {
+	return map[string][2]float64{
+		"itf":     {itfReader_MAX_AVG_VARIANCE, itfReader_MAX_INDIVIDUAL_VARIANCE},
+		"code128": {code128MAX_AVG_VARIANCE, code128MAX_INDIVIDUAL_VARIANCE},
+		"upcean":  {UPCEANReader_MAX_AVG_VARIANCE, UPCEANReader_MAX_INDIVIDUAL_VARIANCE},
+	}
+}
+
+// VerifITFDecodeDigit exposes the ITF best-match digit decoder.
+func VerifITFDecodeDigit(counters []int) (int, error) { return itfReader_decodeDigit(counters) }
+
+// VerifCode128DecodeCode exposes the Code 128 best-match symbol decoder.
+func VerifCode128DecodeCode(row *gozxing.BitArray, counters []int, rowOffset int) (int, error) {
+	return code128DecodeCode(row, counters, rowOffset)
+}
+
+// VerifUPCEANDecodeDigit exposes the UPC/EAN best-match digit decoder.
+func VerifUPCEANDecodeDigit(row *gozxing.BitArray, counters []int, rowOffset int, patterns [][]int) (int, error) {
+	return upceanReader_decodeDigit(row, counters, rowOffset, patterns)
 }
